@@ -11,7 +11,7 @@ MetricInch = Length.unit("metric inch", "metric-foot")
 MetricInch.equals(0.25 * BasicModule)
 
 MetricFoot = Length.unit("metric foot", "metric-inch")
-MetricInch.equals(3 * BasicModule)
+MetricFoot.equals(3 * BasicModule)
 
 
 # ISO 16:1975 Acoustics, Standard tuning frequency (Standard musical pitch)
